@@ -257,6 +257,73 @@ def long_hold_case(args):
         shutil.rmtree(d, ignore_errors=True)
 
 
+def long_hold2_case(args):
+    """The holder is SIGKILLed while two contenders are blocked in a plain acquire() on the lock file; both
+    then take their turn with a critical section of some length: the survivors must still exclude each other."""
+    hold_s, section_s = args
+    F = _import()
+    d = tempfile.mkdtemp(prefix='vcrash-')
+    try:
+        path = os.path.join(d, 'the.lock')
+        logp = os.path.join(d, 'log')
+        open(logp, 'w').close()
+        ev = [{'n': 0, 't': 0, 'e': 'CrashConfig', 'kind': 'long_hold2', 'kill_at': 0, 'contenders': 2,
+               'prompt_ms': PROMPT_MS, 'inherited': False}]
+        r1, w1 = os.pipe()
+        victim = os.fork()
+        if victim == 0:
+            try:
+                lock = F.FileLock(path)
+                lock.acquire()
+                os.write(w1, b'h')
+                time.sleep(hold_s + 30)
+            finally:
+                os._exit(0)
+        os.read(r1, 1)
+        conts = []
+        for cid in (1, 2):
+            pid = os.fork()
+            if pid == 0:
+                try:
+                    log = os.open(logp, os.O_WRONLY | os.O_APPEND)
+                    lock = F.FileLock(path)
+                    if lock.acquire():
+                        os.write(log, ('E %d %d\n' % (cid, cid)).encode())
+                        time.sleep(section_s)
+                        os.write(log, ('X %d %d\n' % (cid, cid)).encode())
+                        lock.release()
+                finally:
+                    os._exit(0)
+            conts.append(pid)
+        time.sleep(hold_s)
+        os.kill(victim, signal.SIGKILL)
+        os.waitpid(victim, 0)
+        ev.append({'n': 1, 't': 0, 'e': 'Killed', 'nth': 0, 'fn': 'holding', 'line': 0})
+        deadline = time.time() + 10 + 2 * section_s
+        alive = set(conts)
+        while alive and time.time() < deadline:
+            for p in list(alive):
+                pid, st = os.waitpid(p, os.WNOHANG)
+                if pid:
+                    alive.discard(p)
+            time.sleep(0.01)
+        for p in alive:
+            os.kill(p, signal.SIGKILL)
+            os.waitpid(p, 0)
+        n = 2
+        entered = 0
+        for line in open(logp):
+            k, cid, h = line.split()
+            n += 1
+            entered += k == 'E'
+            ev.append({'n': n, 't': 0, 'e': 'Enter' if k == 'E' else 'Exit', 'h': int(h)})
+        ev.append({'n': n + 1, 't': 0, 'e': 'Probe', 'ok': entered == 2 and not alive, 'ms': 0})
+        ev.append({'n': n + 2, 't': 0, 'e': 'End', 'status': 'ok', 'lines': 0})
+        return ev
+    finally:
+        shutil.rmtree(d, ignore_errors=True)
+
+
 def run(ctx):
     import multiprocessing as mp
     from harness.components import filelockmodel
@@ -284,10 +351,12 @@ def run(ctx):
                 cases.append((kind, reentrant, n, 0, True))
     with mp.get_context('fork').Pool(min(16, os.cpu_count() or 4)) as p:
         lh = p.map_async(long_hold_case, [(3.6,)] if ctx.tier == 'quick' else [(3.6,), (7.0,), (1.0,)])
+        lh2 = p.map_async(long_hold2_case, [(0.5, 0.3)] if ctx.tier == 'quick' else [(0.5, 0.3), (1.0, 0.5), (0.2, 0.2)])
         traces = p.map(one_case, cases, chunksize=4)
         lht = lh.get(120)
-    cases = cases + [('long_hold', False, 0, 1, False)] * len(lht)
-    traces = traces + lht
+        lht2 = lh2.get(120)
+    cases = cases + [('long_hold', False, 0, 1, False)] * len(lht) + [('long_hold2', False, 0, 2, False)] * len(lht2)
+    traces = traces + lht + lht2
     verdicts, st = tlc.validate_batch(COMP, TRACE, traces)
     ctx.cov['states'] += st['states']
     ctx.cov['transitions'] += st['generated']
@@ -315,7 +384,8 @@ def run(ctx):
 def replay(prop, path):
     rep = json.load(open(path))
     case = tuple(rep['scenario']['case'])
-    tr = long_hold_case((3.6,)) if case[0] == 'long_hold' else one_case(case)
+    tr = (long_hold_case((3.6,)) if case[0] == 'long_hold' else long_hold2_case((0.5, 0.3)) if case[0] == 'long_hold2'
+          else one_case(case))
     verdicts, st = tlc.validate_batch(COMP, TRACE, [tr])
     hit = verdicts[0].get('C13')
     print('replay verdict:', hit)
